@@ -105,3 +105,20 @@ Fixpoint cleanup_ws_aux (in_ws : bool) (s : str) : str :=
               else c :: cleanup_ws_aux false r
   end.
 Definition cleanup_whitespace (s : str) : str := cleanup_ws_aux false s.
+
+(* Python's str ordering: lexicographic by code point *)
+Fixpoint str_ltb (a b : str) : bool :=
+  match a, b with
+  | _, [] => false
+  | [], _ :: _ => true
+  | x :: a', y :: b' => if x <? y then true else if y <? x then false else str_ltb a' b'
+  end.
+Definition str_leb (a b : str) : bool := negb (str_ltb b a).
+Fixpoint insert_str (x : str) (l : list str) : list str :=
+  match l with
+  | [] => [x]
+  | y :: r => if str_leb x y then x :: l else y :: insert_str x r
+  end.
+(* sorted(keys) for pairwise distinct keys *)
+Definition sort_strs (l : list str) : list str := fold_right insert_str [] l.
+Definition smem (x : str) (l : list str) : bool := existsb (str_eqb x) l.
